@@ -190,14 +190,14 @@ A caller that simply calls `receive` again after every reported read failure (`r
 script without the failures — per logical receive (item, buffer and builder state left behind, rest
 of the script) and for the whole session, which is therefore `decodeAll` of the bytes the peer sent. -/
 
-theorem C02_failed_reads_invisible_call (more : List Conn.Piece) (σ : BState) (buf : Bytes) (cs : List Bytes) (t : Term)
+theorem C02_failed_reads_invisible_call (more : List Conn.ScriptPiece) (σ : BState) (buf : Bytes) (cs : List Bytes) (t : Term)
     (hio : IoChain t more) :
     (recvRetryA σ buf cs t more).1 = (recvLoopA σ buf (flatScript cs more) (lastTerm t more)).1 ∧
     (recvRetryA σ buf cs t more).2.1 = (recvLoopA σ buf (flatScript cs more) (lastTerm t more)).2.1 ∧
     (recvRetryA σ buf cs t more).2.2.1 = (recvLoopA σ buf (flatScript cs more) (lastTerm t more)).2.2.2 :=
   ⟨(recvRetryA_eq more σ buf cs t hio).1, (recvRetryA_eq more σ buf cs t hio).2.1, (recvRetryA_eq more σ buf cs t hio).2.2.1⟩
 
-theorem C02_failed_reads_invisible_session (fuel : Nat) (cs : List Bytes) (t : Term) (more : List Conn.Piece)
+theorem C02_failed_reads_invisible_session (fuel : Nat) (cs : List Bytes) (t : Term) (more : List Conn.ScriptPiece)
     (hio : IoChain t more) (hne : NonEmptyChunks (flatScript cs more)) :
     sessionRetryA fuel 0 .initial [] cs t more =
       decodeAll fuel (flatScript cs more).flatten (lastTerm t more) := by
